@@ -343,7 +343,7 @@ pub fn pace(t: &[&str], o: &mut Oracle) -> String {
     };
     let src_pkts = obj.transfer_length.div_ceil(e as u64).max(1);
     let content_pkts = obj.content_length.div_ceil(e as u64).max(1);
-    let tick = Duration::from_nanos(target).div_f64(src_pkts as f64).as_nanos() as u64;
+    let tick = target / src_pkts; // exact integer division of the nanoseconds (/repo 9d73d78)
     let t0 = UNIX_EPOCH + Duration::from_secs(1_700_000_000);
     let toi = match sender.add_object(0, obj) {
         Ok(x) => x,
